@@ -27,6 +27,8 @@
   as validation in the evidence; no theorem here carries them.
 -/
 import PercevalModel.Lemmas.C09
+import PercevalModel.Lemmas.C09Spec
+import PercevalModel.Lemmas.C09Conv
 import Mathlib.Algebra.Order.Field.Rat
 import Mathlib.Tactic.FieldSimp
 import Mathlib.Tactic.Positivity
@@ -633,6 +635,307 @@ example : (SM.run (memoStep (fun q : Nat × Nat => q) (fun q => q.1 * q.2) ) [] 
   decide
 
 
+
+/-! ## EXTENSION: `NoisySamplingSimulator.samples` as a function of its random draws (`Model/C09Run.lean`)
+
+  FULL STATEMENT aimed at: "if the draws of every random site (input emission, the backend per input state, the
+  detectors per incoming state) are independent with the site's ideal law, the accepted samples are i.i.d. from the
+  conditional strong-simulation law and the expected tallies give the physical / logical performances".
+
+  PROVED below, for all configurations, limits, draw streams and laws:
+   (1) `pooled_run_refines_lazy`: the run of the code's pooled provider (weights, batches of draws fetched ahead,
+       pools emptied from their end) on streams `S` is the run of the LAZY provider — one draw per component, taken
+       from the head of that component's stream when the shot needs it — on the re-ordered streams `lazyOf`;
+   (2) `reorder_value_independent_permutation`: the re-ordering never looks at the values, keeps the length law,
+       and hands out a permutation of a prefix of every stream (no draw used twice, none invented);
+   (3) `replay_run_accounting`: whatever the provider, the returned samples are the selected, herald-stripped
+       states among the detected states of the shots, in order, the counters count them, the limits hold and the
+       loop has stopped for a limit;
+   (4) `shot_law_is_strong_simulation_law`: one lazy shot with independent ideal draws has the law
+       "mixture over the inputs of the convolution of the components' laws, pushed through the detectors";
+       with the backend law `SimSpec.probsFock U` this is the `SimSpec` mixture of `probsTagged U`;
+   (5) `accepted_samples_iid`: over `N` independent shots of law `d`, the accepted list is `out` with probability
+       `C(N,k) a^k (1-a)^(N-k) ∏ conditioned(outᵢ)`: given their number the accepted samples are independent with
+       the `conditioned` law of `SimSpec`;
+   (6) `expected_tallies`: the expected numbers of selected / physically accepted / physically rejected shots are
+       `N` times `mass retained`, `physPerf`, `1 - physPerf`; their ratios are the two performances;
+   (7) `inputs_below_filter_only_scale`: dropping the inputs that cannot pass the photon filter and renormalising
+       (the `_preprocess_input_state` / `cache_prob_table` step) multiplies every expectation carried by states
+       passing the filter by the pre-performance — so the conditional law is unchanged and the physical
+       performance is the product.
+  NOT a theorem (`…`): … the passage from "the streams are independent with the ideal laws" to "the successive
+  reads of the lazy provider are independent draws" (reading a product measure at distinct positions, chosen
+  from what was read before — Fubini), and the invariance of a product law under the value-independent permutation
+  of (2).  (1)–(3) reduce the code to the lazy reads, (4)–(7) compute with independent reads; the link between the
+  two is the standard fact just named.  The threshold `p ≥ max_p / n` of `_preprocess_input_state` drops improbable
+  inputs: the laws above are those of the TRIMMED mixture, equal to the full one when nothing is below the
+  threshold. -/
+
+/-- (1) the pooled provider refines the lazy provider on the re-ordered streams -/
+theorem pooled_run_refines_lazy (c : SelCfg) (ms : Nat) (sh : Option Nat) (ge : Option String) (fuel : Nat)
+    (p : Prov) (s : Core) (p' : Prov) (s' : Core)
+    (h : loopG sfPool c ms sh ge fuel p s = .ok (p', s')) :
+    ∃ q', loopG sfLazy c ms sh ge fuel (lazyOf p) s = .ok (q', s') ∧ ∀ k, q' k = lazyOf p' k :=
+  loopG_sim Sim sfPool sfLazy sfPool_sim c ms sh ge fuel p (lazyOf p) s p' s' (sim_lazyOf p) h
+
+/-- (2) the re-ordering of a stream: commutes with every relabelling of the values, its length depends on the
+length of the stream only, and it is a permutation of a prefix of the stream -/
+theorem reorder_value_independent_permutation (w : Option Nat) (s : List Fock) :
+    (∀ g : Fock → Fock, reorder w (s.map g) = (reorder w s).map g) ∧
+    (∀ s' : List Fock, s.length = s'.length → (reorder w s).length = (reorder w s').length) ∧
+    (reorder w s).Perm (s.take (reorder w s).length) :=
+  ⟨fun g => reorder_map g s w, fun s' h => reorder_length s s' h w, reorder_perm s w⟩
+
+/-- (3) accounting of a run started on empty counters, for ANY provider -/
+theorem replay_run_accounting {P : Type} (sf : P → Fock → Except String (Fock × P)) (c : SelCfg) (ms : Nat)
+    (sh : Option Nat) (ge : Option String) (fuel : Nat) (p : P) (first : List InDraw) (gens : List (List InDraw))
+    (asked : List Nat) (det : AL (List Fock)) (p' : P) (s' : Core)
+    (h : loopG sf c ms sh ge fuel p ⟨[], [], 0, 0, 0, first, gens, asked, det⟩ = .ok (p', s')) :
+    s'.out.reverse = s'.seen.reverse.filterMap (selOf c) ∧
+    s'.shots = s'.seen.length ∧
+    s'.notSel = (s'.seen.filter (isOutcome c .logic)).length ∧
+    s'.notSelPhys = (s'.seen.filter (isOutcome c .phys)).length ∧
+    s'.out.length ≤ ms ∧ (∀ k, sh = some k → s'.shots ≤ k) ∧
+    (s'.out.length = ms ∨ sh = some s'.shots) := by
+  have h0 : Acc c ms sh ⟨[], [], 0, 0, 0, first, gens, asked, det⟩ :=
+    ⟨rfl, rfl, rfl, rfl, Nat.zero_le _, fun _ _ => Nat.zero_le _⟩
+  obtain ⟨⟨a1, a2, a3, a4, a5, a6⟩, hstop⟩ := loopG_acc sf c ms sh ge fuel p _ p' s' h0 h
+  refine ⟨?_, a2, a3, a4, a5, a6, ?_⟩
+  · rw [a1, List.filterMap_reverse]
+  · unfold condR at hstop
+    cases hsh : sh with
+    | none =>
+      rw [hsh] at hstop
+      simp only [Bool.and_true, decide_eq_false_iff_not, Nat.not_lt] at hstop
+      left; omega
+    | some k =>
+      rw [hsh] at hstop
+      simp only [Bool.and_eq_false_iff, decide_eq_false_iff_not, Nat.not_lt] at hstop
+      have := a6 k hsh
+      rcases hstop with h1 | h1
+      · left; omega
+      · right; congr 1; omega
+
+/-- (4) the law of the detected state of one shot under independent ideal draws, and its identification with the
+strong-simulation specification when the backend samples `SimSpec.probsFock U` -/
+theorem shot_law_is_strong_simulation_law (m : ℕ) (inputs : List (ℚ × InDraw)) (bk detK : Fock → PM.Dist.D)
+    (f : Fock → ℚ) (hne : ∀ p ∈ inputs, p.2 ≠ []) (hlen : ∀ k, ∀ p ∈ bk k, m ≤ p.1.length) :
+    exShot inputs bk detK f = ex (shotLaw m inputs bk detK) f ∧
+    (∀ (U : Matrix (Fin m) (Fin m) GQ),
+      shotLaw m inputs (PM.SimSpec.probsFock U) detK =
+        bind (PM.Dist.mix (inputs.map fun p => (p.1, PM.SimSpec.probsTagged U p.2))) detK) :=
+  ⟨ex_shot_law m inputs bk detK f hne hlen, fun _ => rfl⟩
+
+/-- (5) the accepted samples of `N` independent shots of law `d` -/
+theorem accepted_samples_iid (sc : SelCfg) (ps : PM.SimSpec.PS) (hps : sc.psf = ps.eval) (d : PM.Dist.D)
+    (hd : PM.Dist.mass d = 1) (ha : PM.Dist.mass (PM.SimSpec.retained (condOf sc ps) d) ≠ 0)
+    (N : ℕ) (out : List Fock) :
+    exN d N (fun seen => if seen.filterMap (selOf sc) = out then 1 else 0) =
+      (N.choose out.length : ℚ) * PM.Dist.mass (PM.SimSpec.retained (condOf sc ps) d) ^ out.length *
+        (1 - PM.Dist.mass (PM.SimSpec.retained (condOf sc ps) d)) ^ (N - out.length) *
+        (out.map (PM.Dist.get (PM.SimSpec.conditioned (condOf sc ps) d))).prod := by
+  rw [exN_accepted, muNone_eq sc ps hps d hd, prod_muSel sc ps hps d ha]
+  ring
+
+/-- (6) expected tallies of `N` independent shots and the two performances -/
+theorem expected_tallies (sc : SelCfg) (ps : PM.SimSpec.PS) (hps : sc.psf = ps.eval) (d : PM.Dist.D)
+    (hd : PM.Dist.mass d = 1) (N : ℕ) :
+    exN d N (countP (isOutcome sc .sel)) = N * PM.Dist.mass (PM.SimSpec.retained (condOf sc ps) d) ∧
+    exN d N (countP (fun t => !isOutcome sc .phys t)) = N * PM.SimSpec.physPerf (condOf sc ps) d ∧
+    exN d N (countP (isOutcome sc .phys)) = N * (1 - PM.SimSpec.physPerf (condOf sc ps) d) ∧
+    (0 < N → PM.SimSpec.physPerf (condOf sc ps) d ≠ 0 →
+      exN d N (countP (isOutcome sc .sel)) / exN d N (countP (fun t => !isOutcome sc .phys t)) =
+        PM.SimSpec.logicalPerf (condOf sc ps) d ∧
+      exN d N (countP (fun t => !isOutcome sc .phys t)) / N = PM.SimSpec.physPerf (condOf sc ps) d) := by
+  have hsel : ∀ t, isOutcome sc .sel t =
+      (PM.SimSpec.physOk (condOf sc ps) t && PM.SimSpec.logicOk (condOf sc ps) t) := by
+    intro t
+    unfold isOutcome
+    rw [hps, Bool.eq_iff_iff, decide_eq_true_eq]
+    exact shotOutcome_sel_iff sc ps t
+  have hphys : ∀ t, isOutcome sc .phys t = !PM.SimSpec.physOk (condOf sc ps) t := by
+    intro t
+    unfold isOutcome
+    rw [hps, Bool.eq_iff_iff, decide_eq_true_eq, shotOutcome_phys_iff]
+    simp
+  have e1 : exN d N (countP (isOutcome sc .sel)) =
+      N * PM.Dist.mass (PM.SimSpec.retained (condOf sc ps) d) := by
+    rw [exN_countP d hd, ← ex_retained]
+    congr 1
+    apply ex_congr
+    intro p _
+    rw [hsel]
+  have e2 : exN d N (countP (fun t => !isOutcome sc .phys t)) = N * PM.SimSpec.physPerf (condOf sc ps) d := by
+    rw [exN_countP d hd, ← ex_physOk]
+    congr 1
+    apply ex_congr
+    intro p _
+    rw [hphys]
+    simp
+  have e3 : exN d N (countP (isOutcome sc .phys)) = N * (1 - PM.SimSpec.physPerf (condOf sc ps) d) := by
+    rw [exN_countP d hd, ← ex_physOk]
+    have : ex d (fun t => if isOutcome sc .phys t = true then (1 : ℚ) else 0) =
+        ex d (fun _ => 1) - ex d (fun t => if PM.SimSpec.physOk (condOf sc ps) t = true then 1 else 0) := by
+      rw [eq_sub_iff_add_eq, ← ex_add]
+      apply ex_congr
+      intro p _
+      rw [hphys]
+      cases PM.SimSpec.physOk (condOf sc ps) p.1 <;> simp
+    rw [this, ← mass_eq_ex, hd]
+  refine ⟨e1, e2, e3, ?_⟩
+  intro hN hp
+  have hN' : (N : ℚ) ≠ 0 := by exact_mod_cast (Nat.pos_iff_ne_zero.1 hN)
+  rw [e1, e2]
+  constructor
+  · unfold PM.SimSpec.logicalPerf
+    simp only [hp, ↓reduceIte]
+    field_simp
+  · field_simp
+
+/-- (7) dropping the members of a mixed input that put no weight on the states carrying `g` (inputs with fewer
+photons than the filter asks for) and renormalising the others by their total weight `P` divides the
+expectation of `g` by `P`: with `g` the indicator of "passes the filter", "is retained", "is retained and
+reported as `s`" this gives `physPerf full = P · physPerf trimmed`, `mass retained full = P · mass retained
+trimmed`, hence the same conditional law and logical performance. -/
+theorem inputs_below_filter_only_scale (l : List (ℚ × PM.Dist.D)) (keep : ℚ × PM.Dist.D → Bool)
+    (g : Fock → ℚ) (P : ℚ) (hP : P ≠ 0) (hdrop : ∀ p ∈ l, keep p = false → ex p.2 g = 0) :
+    ex (PM.Dist.mix l) g = P * ex (PM.Dist.mix ((l.filter keep).map fun p => (p.1 / P, p.2))) g :=
+  ex_mix_trim l keep g P hP hdrop
+
+
+/-! ## EXTENSION: the sample-drawing conversions (`Model/C09Conv.lean`) -/
+
+/-- `BSDistribution.sample(count, non_null)` for every table, every draw sequence: a returned list has exactly
+`count` samples, every sample is a key of the table and — with `non_null`, the default every conversion uses —
+never the vacuum state. -/
+theorem sample_total_and_support (vac : List Bool) (nonNull : Bool) (present : List Bool) (weights : List ℚ)
+    (count : Nat) (draws r : List Nat) (h : sampleDist vac nonNull present weights count draws = .ok r) :
+    r.length = count ∧
+    ∀ i ∈ r, i < present.length ∧ present.getD i false = true ∧ (nonNull = true → vac.getD i false = false) :=
+  sampleDist_ok vac nonNull present weights count draws r h
+
+/-- `probs_to_samples` / `sample_count_to_samples`: the number of samples is the deduced request (for a count
+table: the total of the table when no request is given — the `except RuntimeError` branch), every sample is a state
+of the table (for a count table: one with a non-zero count) and holds at least one photon. -/
+theorem conversions_to_samples_total (vac : List Bool) (count maxShots maxSamples : Option Nat) (draws r : List Nat) :
+    (∀ probs : List ℚ, probsToSamples vac probs count maxShots maxSamples draws = .ok r →
+      (∃ c, deduceCount count maxShots maxSamples = .ok c ∧ r.length = c) ∧
+      ∀ i ∈ r, i < probs.length ∧ vac.getD i false = false) ∧
+    (∀ counts : List ℤ, sampleCountToSamples vac counts count maxShots maxSamples draws = .ok r →
+      ((∃ c, deduceCount count maxShots maxSamples = .ok c ∧ r.length = c) ∨
+       ((∃ e, deduceCount count maxShots maxSamples = .error e) ∧ (r.length : ℤ) = sumI counts)) ∧
+      ∀ i ∈ r, i < counts.length ∧ counts.getD i 0 ≠ 0 ∧ vac.getD i false = false) := by
+  constructor
+  · intro probs h
+    unfold probsToSamples at h
+    cases hd : deduceCount count maxShots maxSamples with
+    | error e => rw [hd] at h; simp at h
+    | ok c =>
+      rw [hd] at h
+      obtain ⟨h1, h2⟩ := sampleDist_ok _ _ _ _ _ _ _ h
+      refine ⟨⟨c, rfl, h1⟩, ?_⟩
+      intro i hi
+      obtain ⟨a, _, b⟩ := h2 i hi
+      exact ⟨by simpa using a, b rfl⟩
+  · intro counts h
+    unfold sampleCountToSamples at h
+    cases hp : countsToProbs counts with
+    | error e => rw [hp] at h; simp at h
+    | ok ps =>
+      rw [hp] at h
+      simp only at h
+      have hps : ps = counts.map (probOf (sumI counts)) := by
+        unfold countsToProbs at hp
+        by_cases hneg : counts.any (· < 0) = true
+        · simp [hneg] at hp
+        · simp only [hneg, Bool.false_eq_true, ↓reduceIte, Except.ok.injEq] at hp
+          exact hp.symm
+      have key : ∀ c : ℤ,
+          (if c < 0 then Drawn.bad "negative count"
+            else sampleDist vac true (ps.map Option.isSome) (ps.map getQ) c.toNat draws) = .ok r →
+          0 ≤ c ∧ r.length = c.toNat ∧
+            ∀ i ∈ r, i < counts.length ∧ counts.getD i 0 ≠ 0 ∧ vac.getD i false = false := by
+        intro c hh
+        by_cases hc : c < 0
+        · rw [if_pos hc] at hh; exact absurd hh (by simp)
+        · rw [if_neg hc] at hh
+          obtain ⟨h1, h2⟩ := sampleDist_ok _ _ _ _ _ _ _ hh
+          refine ⟨by omega, h1, ?_⟩
+          intro i hi
+          obtain ⟨a, b, c'⟩ := h2 i hi
+          simp only [List.length_map] at a
+          have hlen : i < counts.length := by rw [hps] at a; simpa using a
+          refine ⟨hlen, ?_, c' rfl⟩
+          rw [hps, List.map_map] at b
+          rw [getD_eq_getElem' _ _ (by simpa using hlen)] at b
+          simp only [List.getElem_map, Function.comp] at b
+          rw [getD_eq_getElem' _ _ hlen]
+          intro h0
+          rw [h0] at b
+          simp [probOf] at b
+      cases hd : deduceCount count maxShots maxSamples with
+      | ok c =>
+        rw [hd] at h
+        obtain ⟨_, h1, h2⟩ := key _ h
+        exact ⟨Or.inl ⟨c, rfl, by simpa using h1⟩, h2⟩
+      | error e =>
+        rw [hd] at h
+        obtain ⟨h0, h1, h2⟩ := key _ h
+        refine ⟨Or.inr ⟨⟨e, rfl⟩, ?_⟩, h2⟩
+        rw [h1]
+        exact Int.toNat_of_nonneg h0
+
+/-- **round trip** counts → probabilities → counts: turning a count table of total `T ≥ 1` into probabilities
+(`sample_count_to_probs`; zero counts are entries of probability 0 here) and back with `probs_to_sample_count` for
+the same total gives the table back EXACTLY when the perturbation is zero — whatever the pick stream and the
+fall-back samples (neither the repair loop nor the fall-back runs). -/
+theorem counts_probs_counts_roundtrip (cs : List ℤ) (hnn : ∀ c ∈ cs, 0 ≤ c) (hT : 0 < sumI cs)
+    (picks fb : List Nat) :
+    probsToSampleCount ((cs.map (probOf (sumI cs))).map getQ) (cs.map fun _ => 0) (sumI cs).toNat picks fb =
+      .done false cs := by
+  set T := sumI cs with hTdef
+  have hTq : (0 : ℚ) < T := by exact_mod_cast hT
+  have hTn : ((T.toNat : ℕ) : ℚ) = (T : ℚ) := by
+    have : ((T.toNat : ℕ) : ℤ) = T := Int.toNat_of_nonneg hT.le
+    exact_mod_cast this
+  set ps := (cs.map (probOf T)).map getQ with hps
+  have hpsnn : ∀ p ∈ ps, 0 ≤ p := by
+    intro p hp
+    simp only [hps, List.mem_map, exists_exists_and_eq_and] at hp
+    obtain ⟨c, hc, rfl⟩ := hp
+    exact getQ_probOf_nonneg T c hT (hnn c hc)
+  have hsum : sumQ ps = 1 := by
+    rw [hps, sumQ_probOf, div_self (ne_of_gt hTq)]
+  have hns : (cs.map fun _ => (0 : ℚ)) = ps.map fun _ => 0 := by
+    rw [hps, List.map_map, List.map_map]; rfl
+  unfold probsToSampleCount
+  have hc1 : ¬ T.toNat < 1 := by omega
+  rw [if_neg hc1]
+  have hlen : ¬ (cs.map fun _ => (0 : ℚ)).length ≠ ps.length := by simp [hps]
+  rw [if_neg hlen, hns, perturb_zero ps hpsnn]
+  simp only [hsum, one_ne_zero, ↓reduceIte, div_one, one_mul, List.map_id']
+  have hq : ps.map (fun x => roundHalfEven (x * ((T.toNat : ℕ) : ℚ))) = cs := by
+    rw [hps, List.map_map, List.map_map]
+    conv_rhs => rw [← List.map_id cs]
+    apply List.map_congr_left
+    intro c _
+    simp only [Function.comp, hTn, getQ_probOf_mul T c hT, roundHalfEven_int, id]
+  obtain ⟨c1, hc1m, hc1⟩ := exists_pos_of_sumI_pos cs hT hnn
+  have hmax : ¬ maxQ ps * ((T.toNat : ℕ) : ℚ) < 1 := by
+    have hmem : getQ (probOf T c1) ∈ ps := by
+      simp only [hps, List.mem_map, exists_exists_and_eq_and]
+      exact ⟨c1, hc1m, rfl⟩
+    have h1 := maxQ_ge ps _ hmem
+    have h2 : getQ (probOf T c1) * (T : ℚ) = c1 := getQ_probOf_mul T c1 hT
+    have h3 : (1 : ℚ) ≤ c1 := by exact_mod_cast hc1
+    rw [hTn]
+    have : getQ (probOf T c1) * (T : ℚ) ≤ maxQ ps * (T : ℚ) := mul_le_mul_of_nonneg_right h1 hTq.le
+    linarith
+  rw [if_neg hmax, hq]
+  have hd : ((T.toNat : ℕ) : ℤ) - sumI cs = 0 := by
+    rw [Int.toNat_of_nonneg hT.le]; omega
+  simp only [hd, lt_self_iff_false, ↓reduceIte]
+
 /-! ## non-vacuity: the hypotheses of the theorems above are satisfiable and the conclusions are
 about runs that really happen (closed terms evaluated by the kernel) -/
 
@@ -690,5 +993,55 @@ example : countOf 3 [0, 2, 2, 0, 0] = [3, 0, 2] := by decide
 example : countsToProbs [3, 0, 2] = .ok [some (3 / 5), none, some (2 / 5)] := by decide +kernel
 example : countsToProbs [3, -1] = .error "RuntimeError" := by decide +kernel
 example : (perfectLoop 2500 2500 0) = (2500, [1000, 1000, 500]) := by decide +kernel
+
+
+/-! ### non-vacuity of the extension theorems -/
+
+/-- a small sampler configuration: photon filter 1, no herald, no post-selection, no detector -/
+def exSel : SelCfg := ⟨1, [], true, fun _ => true, .none⟩
+/-- a provider with three draws ready for the input `|1,0>` (weight 2: the first refill takes two of them) -/
+def exProv : Prov := ⟨[], [([1, 0], 2)], [([1, 0], [[1, 0], [0, 1], [0, 0]])], []⟩
+def exCore : Core := ⟨[], [], 0, 0, 0, [[[1, 0]], [[1, 0]]], [], [], []⟩
+
+-- the pooled run of two shots succeeds (hypothesis of `pooled_run_refines_lazy` and `replay_run_accounting`):
+-- the first refill fetches `[|1,0>, |0,1>]` and hands them out from the END
+example : ∃ p' s', loopG sfPool exSel 2 (some 2) none 5 exProv exCore = .ok (p', s') ∧
+    s'.out = [[1, 0], [0, 1]] ∧ s'.shots = 2 := ⟨_, _, rfl, rfl, rfl⟩
+-- and the re-ordering of that stream is `[|0,1>, |1,0>]` followed by nothing (the third draw does not fill a batch
+-- of 16)
+example : reorder (some 2) [[1, 0], [0, 1], [0, 0]] = [[0, 1], [1, 0]] := by
+  rw [reorder_eq, reorder_eq]; decide
+-- `shot_law_is_strong_simulation_law`: its hypotheses hold for a one-component input and a two-mode backend law
+example : (∀ p ∈ [((1 : ℚ), [[1, 0]])], p.2 ≠ []) ∧
+    (∀ k, ∀ p ∈ (fun _ : Fock => [(([0, 1] : Fock), (1 : ℚ))]) k, 2 ≤ p.1.length) := by
+  constructor
+  · intro p hp; simp at hp; subst hp; simp
+  · intro k p hp; simp at hp; subst hp; simp
+-- `accepted_samples_iid` / `expected_tallies`: a law of mass 1 of which half is retained by the filter 1
+example : exSel.psf = PM.SimSpec.PS.tt.eval ∧
+    PM.Dist.mass [(([1, 0] : Fock), (1 / 2 : ℚ)), ([0, 0], 1 / 2)] = 1 ∧
+    PM.Dist.mass (PM.SimSpec.retained (condOf exSel .tt) [(([1, 0] : Fock), (1 / 2 : ℚ)), ([0, 0], 1 / 2)]) = 1 / 2 := by
+  refine ⟨rfl, by decide +kernel, by decide +kernel⟩
+-- and the conclusion on it: two shots, accepted list `[|1,0>]` has probability C(2,1)·(1/2)·(1/2)·1 = 1/2
+example : exN [(([1, 0] : Fock), (1 / 2 : ℚ)), ([0, 0], 1 / 2)] 2
+    (fun seen => if seen.filterMap (selOf exSel) = [[1, 0]] then 1 else 0) = 1 / 2 := by decide +kernel
+-- `inputs_below_filter_only_scale`: a vacuum member dropped, the remaining weight is 1/2
+example : ((1 / 2 : ℚ) ≠ 0) ∧
+    ∀ p ∈ [((1 / 2 : ℚ), [(([1] : Fock), (1 : ℚ))]), (1 / 2, [([0], 1)])],
+      (fun q : ℚ × PM.Dist.D => decide (q.2 = [([1], 1)])) p = false →
+        ex p.2 (fun t => if 1 ≤ t.sum then 1 else 0) = 0 := by
+  refine ⟨by norm_num, ?_⟩
+  decide +kernel
+
+
+-- conversions: two samples asked from a table whose first state is the vacuum (never handed out) …
+example : probsToSamples [true, false, false] [1 / 2, 1 / 4, 1 / 4] (some 2) none none [0, 1] = .ok [1, 2] := by
+  decide +kernel
+-- … a count table sampled for its own total (no request given), a zero count is no key …
+example : sampleCountToSamples [false, false, false] [2, 0, 1] none none none [1, 0, 0] = .ok [2, 0, 0] := by
+  decide +kernel
+-- … and the round trip [2, 0, 1] → [2/3, ·, 1/3] → [2, 0, 1]
+example : probsToSampleCount (([2, 0, 1] : List ℤ).map (probOf 3) |>.map getQ) [0, 0, 0] 3 [] [] =
+    .done false [2, 0, 1] := by decide +kernel
 
 end PM.C09
